@@ -41,7 +41,14 @@ PopB == << El(1, "concept", "Person", 4, {}),
            El(4, "concept", "Person", 4, {}),
            El(5, "concept", "Person", 0, {}),
            El(6, "concept", "Person", 1, {}) >>
-PopOf(name) == IF name = "A" THEN PopA ELSE PopB
+\* C (thorough tier): the classifications the other way round, a public tuple between a secret and a private endpoint
+PopC == << El(1, "concept", "Person", 4, {}),
+           El(2, "concept", "Preference", 2, {}),
+           El(3, "concept", "Person", 1, {}),
+           El(4, "concept", "Person", 0, {}),
+           El(5, "proposition", "prefers", 0, {1, 2}),
+           El(6, "proposition", "mentions", 1, {3, 4}) >>
+PopOf(name) == IF name = "A" THEN PopA ELSE IF name = "B" THEN PopB ELSE PopC
 
 (* ------------------------------ vocabulary ------------------------------- *)
 Ps == {"a", "b", "c"}
@@ -97,7 +104,12 @@ Ceils == IF Thorough THEN {NoCeil, 0, 1, 2, 3, 4} ELSE {NoCeil, 0, 1, 4}
 
 (* --- F1: one direct Grant: scope x ceiling x mask ------------------------- *)
 F1 == { Case("grant", [Base EXCEPT !.grants = << Gr("a", HB, sc, CoM(ce, m)) >>], <<"a", "b">>) :
-          sc \in Scopes, ce \in Ceils, m \in {{}, HideAttrs} }
+          sc \in Scopes, ce \in Ceils, m \in (IF Thorough THEN {{}, HideAttrs, HideName} ELSE {{}, HideAttrs}) }
+     \cup
+      (IF Thorough
+       THEN { [Case("grant-pop-c", [Base EXCEPT !.grants = << Gr("a", HB, sc, CoM(ce, m)) >>], <<"a">>) EXCEPT !.pop = "C"] :
+                sc \in Scopes, ce \in Ceils, m \in {{}, HideAttrs} }
+       ELSE {})
      \cup
       { Case("grant-hide-name", [Base EXCEPT !.grants = << Gr("a", HB, sc, CoM(ce, HideName)) >>], <<"a">>) :
           sc \in {AnyScope, K({"concept"}), C({0, 1})}, ce \in {NoCeil, 1} }
@@ -192,14 +204,15 @@ F3b == UNION { {
       ps \in {0, 2}, cs \in {0, 2}, have \in {1, 2} }
 
 (* --- F4: chains a -> b -> c ------------------------------------------------ *)
-F4c1 == {NoCeil, 1, 2}
-F4c2 == {NoCeil, 1, 2, 4}
+F4c1 == IF Thorough THEN {NoCeil, 0, 1, 2} ELSE {NoCeil, 1, 2}
+F4c2 == IF Thorough THEN {NoCeil, 0, 1, 2, 4} ELSE {NoCeil, 1, 2, 4}
 Chain(ca, c1, r1, s2, c2) ==
   [Base EXCEPT !.grants = << GrD("a", HB, AnyScope, Co(ca)) >>,
                !.delegs = << [De("a", "b", HB, AnyScope, Co(c1)) EXCEPT !.redeleg = r1],
                              [De("b", "c", HB, s2, Co(c2)) EXCEPT !.parent = 1] >>]
 F4 == { Case("chain", Chain(ca, c1, r1, s2, c2), <<"a", "b", "c">>) :
-          ca \in {NoCeil, 2}, c1 \in F4c1, r1 \in BOOLEAN, s2 \in {AnyScope, K({"concept"})}, c2 \in F4c2 }
+          ca \in (IF Thorough THEN {NoCeil, 1, 2} ELSE {NoCeil, 2}), c1 \in F4c1, r1 \in BOOLEAN,
+          s2 \in (IF Thorough THEN {AnyScope, K({"concept"}), C({0, 1})} ELSE {AnyScope, K({"concept"})}), c2 \in F4c2 }
 F4b == UNION { {
     Case("chain-middle-suspended", [Chain(ce, ce, TRUE, AnyScope, ce) EXCEPT !.pstat["b"] = "suspended"], <<"b", "c">>),
     Case("chain-middle-revoked", [Chain(ce, ce, TRUE, AnyScope, ce) EXCEPT !.pstat["b"] = "revoked"], <<"c">>),
@@ -225,13 +238,16 @@ F4b == UNION { {
 Pol(cfg, sts) == [cfg EXCEPT !.policy = sts]
 F5 == { Case("policy-allow", Pol([Base EXCEPT !.members = {"c"}],
                                  << [St("allow", who, grp, HB, sc) EXCEPT !.cons = Co(ce)] >>), <<"a", "b", "c">>) :
-          who \in {{}, {"b"}}, grp \in {{}, {"g"}}, sc \in {AnyScope, C({0}), K({"concept"})}, ce \in {NoCeil, 1} }
+          who \in {{}, {"b"}}, grp \in {{}, {"g"}},
+          sc \in (IF Thorough THEN {AnyScope, C({0}), K({"concept"}), T({"Person"}), E({1, 4})} ELSE {AnyScope, C({0}), K({"concept"})}),
+          ce \in (IF Thorough THEN {NoCeil, 0, 1, 2} ELSE {NoCeil, 1}) }
       \cup
       { Case("policy-deny", Pol([Base EXCEPT !.grants = << Gr("a", HB, AnyScope, Co(gc)), Gr("b", HB, AnyScope, Co(gc)) >>,
                                              !.members = {"a"}],
                                 << St("deny", who, grp, acts, sc) >>), <<"a", "b">>) :
           gc \in {NoCeil, 2}, who \in {{}, {"a"}}, grp \in {{}, {"g"}},
-          acts \in {{}, {"read"}, {"search"}}, sc \in {AnyScope, C({4}), E({2})} }
+          acts \in (IF Thorough THEN {{}, {"read"}, {"search"}, {"read_history", "export"}} ELSE {{}, {"read"}, {"search"}}),
+          sc \in (IF Thorough THEN {AnyScope, C({4}), E({2}), K({"proposition"}), T({"Preference"})} ELSE {AnyScope, C({4}), E({2})}) }
       \cup
       { Case("policy-deny-expired", Pol([Base EXCEPT !.grants = << G0(NoCeil) >>],
                                         << [St("deny", {"a"}, {}, {"read"}, AnyScope) EXCEPT !.cond = Until(u)] >>), <<"a">>) :
@@ -264,7 +280,21 @@ F8 == { [Case("writer", [Base EXCEPT !.grants = << Gr("a", WB, sc, Co(ce)) >>,
                                      !.delegs = << De("own", "b", WB, AnyScope, Co(NoCeil)) >>], <<"a", "b">>) EXCEPT !.mut = TRUE] :
           sc \in {AnyScope, K({"concept"})}, ce \in {NoCeil, 2} }
 
-CaseSeq == S(F1) \o S(F1b) \o S(F2) \o S(F3) \o S(F3b) \o S(F4) \o S(F4b) \o S(F5) \o S(F6) \o S(F7) \o S(F8)
+(* --- F9 (thorough): a Grant combined with a policy statement; masks through a Delegation --- *)
+F9 == IF ~Thorough THEN {} ELSE
+      { Case("grant-and-deny", Pol([Base EXCEPT !.grants = << Gr("a", HB, sa, Co(ca)) >>],
+                                   << St("deny", {"a"}, {}, {"read"}, sd) >>), <<"a">>) :
+          sa \in Scopes, ca \in {NoCeil, 1}, sd \in {C({4}), E({2}), K({"proposition"})} }
+      \cup
+      { Case("grant-and-allow", Pol([Base EXCEPT !.grants = << Gr("a", HB, sa, Co(ca)) >>],
+                                    << [St("allow", {}, {}, HB, sp) EXCEPT !.cons = Co(cp)] >>), <<"a", "b">>) :
+          sa \in Scopes, ca \in {NoCeil, 1}, sp \in {C({0}), K({"concept"})}, cp \in {NoCeil, 0} }
+      \cup
+      { Case("deleg-masks", [Base EXCEPT !.grants = << GrD("a", HB, AnyScope, CoM(ca, pm)) >>,
+                                         !.delegs = << De("a", "b", HB, AnyScope, CoM(cb, cm)) >>], <<"a", "b">>) :
+          ca \in {NoCeil, 1}, cb \in {NoCeil, 1}, pm \in {{}, HideAttrs}, cm \in {{}, HideAttrs, HideName} }
+
+CaseSeq == S(F9) \o S(F1) \o S(F1b) \o S(F2) \o S(F3) \o S(F3b) \o S(F4) \o S(F4b) \o S(F5) \o S(F6) \o S(F7) \o S(F8)
 NCases == Len(CaseSeq)
 
 Init == ci = 0 /\ chunk \in 0..(NChunks - 1)
@@ -280,9 +310,12 @@ thePop == PopOf(kase.pop)
 \* per element, NOT gated by the `read` gate: SEARCH / EXPORT / HISTORY pass their own gates and then read element by element
 ViewOf(cfg, p) ==
   [i \in 1..Len(thePop) |->
+     \* r0: the decision on the element as it was written, before it was classified (the governance block a
+     \* read AS OF its creation finds; used only to attribute a mismatch of such a read, never as the oracle)
+     LET r0 == MayRead(cfg, p, [thePop[i] EXCEPT !.cls = -1]) IN
      IF MayRead(cfg, p, thePop[i])
-     THEN [r |-> TRUE, mask |-> MaskOf(cfg, p, thePop[i])]
-     ELSE [r |-> FALSE, mask |-> {}]]
+     THEN [r |-> TRUE, mask |-> MaskOf(cfg, p, thePop[i]), r0 |-> r0]
+     ELSE [r |-> FALSE, mask |-> {}, r0 |-> r0]]
 
 Expect(cfg, p) ==
   [p |-> p,
